@@ -429,24 +429,29 @@ def lowerIs (lit : PStr) (s : PStr) : Option PStr :=
 
 def isAsciiSpace (c : Nat) : Bool := c = 32 || (9 ≤ c && c ≤ 13)
 
+/-- the lazy group `([^>]*?)` followed by a terminator `[ /;'">]`: up to the first terminator (`>` is one, so the group
+    never crosses a `>`); there must be a terminator -/
+def declValue (s : PStr) : Option PStr :=
+  let v := s.takeWhile (fun c => !isTerminator c)
+  if v.length < s.length then some v else none
+
+/-- `["']?` -/
+def stripQuote : PStr → PStr
+  | 34 :: r => r
+  | 39 :: r => r
+  | r => r
+
+/-- `\s*=\s*["']?([^>]*?)[ /;'">]` -/
+def declAfterKey (s : PStr) : Option PStr :=
+  match s.dropWhile isAsciiSpace with
+  | 61 :: s2 => declValue (stripQuote (s2.dropWhile isAsciiSpace))
+  | _ => none
+
 /-- `charset\s*=\s*["']?([^>]*?)[ /;'">]` at the head (bytes pattern, `re.I`) -/
 def declAt (s : PStr) : Option PStr :=
   match lowerIs (ofS "charset") s with
   | none => none
-  | some s1 =>
-    match s1.dropWhile isAsciiSpace with
-    | 61 :: s2 =>
-      let s3 := s2.dropWhile isAsciiSpace
-      let s4 := match s3 with
-        | 34 :: r => r
-        | 39 :: r => r
-        | r => r
-      let v := s4.takeWhile (fun c => !isTerminator c)
-      if v.length < s4.length ∧ ¬ v.contains 62 then
-        -- the lazy group must stop at the first terminator; `>` is a terminator, so `[^>]*?` never crosses one
-        some v
-      else none
-    | _ => none
+  | some s1 => declAfterKey s1
 
 /-- first position where `declAt` succeeds -/
 def findDeclared : PStr → Option PStr
